@@ -1,0 +1,34 @@
+//go:build verif
+// +build verif
+
+package pipe
+
+import "github.com/logrange/range/pkg/records/journal"
+
+// Verification exports for property C10 (pipes copy exactly the matching events). Pure additions, tag `verif` only.
+
+// VerifC10Desc is a copy of one ppDesc of a pipe.
+type VerifC10Desc struct {
+	Src         string
+	Tags        string
+	Pos         journal.Pos
+	LastKnwnPos journal.Pos
+	Charged     bool
+}
+
+// VerifC10Descs dumps the descriptors (ppipe.partitions) of the pipe, in no particular order.
+func (s *Service) VerifC10Descs(name string) ([]VerifC10Desc, bool) {
+	s.lock.Lock()
+	pp, ok := s.ppipes[name]
+	s.lock.Unlock()
+	if !ok {
+		return nil, false
+	}
+	pp.lock.Lock()
+	res := make([]VerifC10Desc, 0, len(pp.partitions))
+	for src, pd := range pp.partitions {
+		res = append(res, VerifC10Desc{Src: src, Tags: pd.Tags, Pos: pd.Pos, LastKnwnPos: pd.LastKnwnPos, Charged: pd.wCharged})
+	}
+	pp.lock.Unlock()
+	return res, true
+}
